@@ -366,7 +366,7 @@ def route_name(c, route):
 
 
 def correspond(ctx, n=None):
-    n = n or ctx.n(1200, 40000)
+    n = n or ctx.n(1200, 20000)
     cases = gen_cases(ctx, n)
     results = C.run_impl('plutus_driver', {'cases': cases})
     mism, ofail, errs, stats = evaluate(cases, results)
